@@ -184,8 +184,9 @@ def c09_configurator_cache(tier, seed):
     for q in ("ge_polyhedron", "select"):
         def build2(sp):
             item = "summer%s18" % sp
-            return cc.StingyConfigurator(cc.Xor(item, "y", "z", default=["y"], variable="X%s1" % sp),
-                                         pg.Imply("y", pg.Any("p", "q", variable="P%sQ" % sp), variable="I%sm" % sp), id="cfg%sid" % sp)
+            return cc.StingyConfigurator(pg.Any(item, "y", "z", variable="X%s1" % sp),
+                                         pg.AtMost(1, ["y", pg.Any("p", "q", variable="P%sQ" % sp)], variable="I%sm" % sp),
+                                         id="cfg%sid" % sp)
         outs = []
         for sp in (" ", ""):
             cfg = build2(sp)
@@ -331,10 +332,31 @@ def c17_b64(tier, seed):
     n = 25 if tier == "quick" else 150
     for k in range(n):
         xs = rng.sample(list("abcdef"), 3)
+        extra = []
+        if k % 3 == 0:
+            # very wide integer item: coefficients and thresholds beyond 32 bits must survive
+            extra = [pg.AtLeast(2500000000, [puan.variable("t", (0, 3000000000))], variable="T")]
         cfg = cc.StingyConfigurator(
             cc.Xor(*xs, default=[xs[0]], variable="X") if k % 2 else cc.Any(*xs, default=[xs[1]], variable="X"),
-            pg.Imply(xs[0], pg.Any("p", puan.variable("q", (0, 1)), variable="PQ"), variable="I"),
+            pg.Imply(xs[0], pg.Any("p", puan.variable("q", (0, 1)), variable="PQ"), variable="I"), *extra,
             id="cfg%d" % k)
+        # the configurator itself, packed after it has been queried, answers like the original
+        if not extra:
+            _ = cfg.ge_polyhedron
+            _ = cfg.leafs()
+            c2 = pg.from_b64(cfg.to_b64())
+            try:
+                a_ = json.dumps(list(cfg.select({xs[0]: 1}, solver=dummy_solver)), default=str)
+                b_ = json.dumps(list(c2.select({xs[0]: 1}, solver=dummy_solver)), default=str)
+                same_cfg = (a_ == b_ and c2.to_text() == cfg.to_text() and c2.default_prios == cfg.default_prios
+                            and c2.ge_polyhedron.tolist() == cfg.ge_polyhedron.tolist()
+                            and [v.id for v in c2.ge_polyhedron.variables] == [v.id for v in cfg.ge_polyhedron.variables])
+            except BaseException as e:
+                same_cfg = False
+            r["evaluations"] += 1
+            r["_seen"].add(("configurator-after-query", k % 2))
+            if not same_cfg:
+                _viol(r, "c17.configurator-differs-after-roundtrip", {"config": cfg.to_json()})
         p0 = cfg.ge_polyhedron
         p1 = pnd.ge_polyhedron_config.from_b64(p0.to_b64())
         r["evaluations"] += 1
@@ -348,10 +370,11 @@ def c17_b64(tier, seed):
         if not same:
             _viol(r, "c17.config-polyhedron-differs", w)
         prio = {rng.choice(xs): rng.choice([1, -1, 2])}
-        a = json.dumps(list(p0.select(prio, solver=dummy_solver)), default=str)
-        b = json.dumps(list(p1.select(prio, solver=dummy_solver)), default=str)
-        if a != b:
-            _viol(r, "c17.select-differs", w, prio=prio)
+        if not extra:
+            a = json.dumps(list(p0.select(prio, solver=dummy_solver)), default=str)
+            b = json.dumps(list(p1.select(prio, solver=dummy_solver)), default=str)
+            if a != b:
+                _viol(r, "c17.select-differs", w, prio=prio)
     return _finish(r)
 
 
@@ -474,6 +497,19 @@ def c15_bridge(tier, seed):
             exp_objs = poly._vectors_from_prios([prio, {}])
             if [list(map(int, o)) for o in rec["objs"]] != [list(map(int, o)) for o in exp_objs]:
                 _viol(r, "c15.select-objective-misaligned", w)
+            batched = [list(map(int, o)) for o in rec["objs"]]
+            singles = []
+            for p_ in (prio, {}):
+                list(cfg.select(p_, solver=recording))
+                singles.append(list(map(int, rec["objs"][0])))
+            if batched != singles:
+                _viol(r, "c15.select-objective-misaligned", dict(w, note="batched request differs from the same requests made one by one"),
+                      got=batched, want=singles)
+            # entry k of the objective is driven by the priority given for column k's id (sign and zero-ness)
+            dp = cfg.default_prios
+            for j, c in enumerate(cols):
+                if c.id in prio and ((batched[0][j] > 0) != (prio[c.id] > 0)):
+                    _viol(r, "c15.select-objective-misaligned", dict(w, note="sign of a prioritised column"), column=str(c.id))
             leaf_ids = {v.id for v in leaves_of(cfg)}
             got = out[0][0] if not only else out[0]
             want = {c.id: 100 + j for j, c in enumerate(cols) if (not only or c.id in leaf_ids)}
@@ -543,6 +579,46 @@ def c14_objectives(tier, seed):
             nondefault = -sum(int(val[i]) for i in val if dp.get(i, -1) <= -2 and i not in prio)
             count = -sum(int(val[i]) for i in val if dp.get(i, -1) == -1 and i not in prio)
             return user + (nondefault, count)
+        # the same objective must reach the solver through StingyConfigurator.select, also when the instance was queried
+        # before with a larger priority dictionary, and when several dictionaries are passed at once
+        rec = {}
+
+        def recording(poly_, objs):
+            rec["objs"] = [list(map(int, o)) for o in objs]
+            return [(None, 0, 4) for _ in objs]
+        bigger = dict(prio)
+        bigger[rng.choice(leaf_ids)] = 2
+        list(cfg.select(bigger, solver=recording))
+        list(cfg.select(prio, solver=recording))
+        r["evaluations"] += 1
+        if rec["objs"][0] != list(map(int, obj)):
+            _viol(r, "c14.select-objective-depends-on-earlier-select", {"config": cfg.to_json(), "earlier": bigger, "prio": prio},
+                  got=rec["objs"][0], want=list(map(int, obj)))
+        list(cfg.select(bigger, prio, {}, solver=recording))
+        single = []
+        for p_ in (bigger, prio, {}):
+            list(cfg.select(p_, solver=recording))
+            single.append(rec["objs"][0])
+        list(cfg.select(bigger, prio, {}, solver=recording))
+        if rec["objs"] != single:
+            _viol(r, "c14.batched-select-differs-from-single-selects", {"config": cfg.to_json(), "prios": [bigger, prio, {}]},
+                  got=rec["objs"], want=single)
+        # a priority on a named sub-proposition ranks first as well
+        named = [x.id for x in cfg.flatten() if not is_var(x) and not x.generated_id and x.id != cfg.id]
+        if named:
+            g = rng.choice(named)
+            pv = rng.choice([1, -1])
+            list(cfg.select({g: pv}, solver=recording))
+            og = rec["objs"][0]
+            gi = [c.id for c in cols].index(g) if g in [c.id for c in cols] else None
+            if gi is not None:
+                xs = [x for x in feas if x[gi] == 1]
+                ys = [x for x in feas if x[gi] == 0]
+                if xs and ys:
+                    bx = max(sum(o * int(t) for o, t in zip(og, x)) for x in (xs if pv > 0 else ys))
+                    by = max(sum(o * int(t) for o, t in zip(og, x)) for x in (ys if pv > 0 else xs))
+                    if not bx > by:
+                        _viol(r, "c14.priority-on-named-group-ignored", {"config": cfg.to_json(), "prio": {str(g): pv}}, objective=og)
         for x, y in itertools.combinations(feas, 2):
             ox, oy = int(np.dot(obj, x)), int(np.dot(obj, y))
             kx, ky = key(x), key(y)
